@@ -128,7 +128,7 @@ def generate(rng, max_threads=5):
     cap = rng.choice([1, 1, 2, 4, 16])
     profile = rng.choice(["mixed", "mutex", "queue", "barrier", "join", "atomic"])
     nphases = rng.randint(1, 4) if profile != "barrier" else rng.randint(3, 8)
-    pk = lambda: rng.choice([0, 1, 1, 2, 3, 4]) if profile != "mutex" else rng.choice([1, 1, 2, 3])
+    pk = lambda: rng.choice([0, 1, 1, 2, 3, 4, 5]) if profile != "mutex" else rng.choice([1, 1, 2, 3, 5])
     threads = [[] for _ in range(nthreads)]
     for ph in range(nphases):
         # queue roles for this phase
